@@ -23,6 +23,15 @@ theorem finv_advance {s s' : TState} {i : Inst} (ha : advance s i = some s')
     exact absurd (hf.tok j hj).1 hph
   · intro hc; cases hc
 
+theorem finv_setReady {s s' : TState} (ha : setReady s = some s')
+    (hf : InvF P s.ibStart s.ib s.toIssue s.ph s.pc) (hph : s.ph ≠ .ready) :
+    FInv P s' := by
+  obtain ⟨st, ib, hrs, rfl⟩ := setReady_eq s s' ha
+  refine ⟨⟨removeStale_ibok P _ _ _ st ib hf.ibok hrs, ?_⟩, ?_⟩
+  · intro j hj
+    exact absurd (hf.tok j hj).1 hph
+  · intro hc; cases hc
+
 theorem finv_step (hP : P.WF) {gate} {T T' : TState} (e : Ev) (h : FInv P T) (ht : tstep P gate T e = some T') :
     FInv P T' := by
   cases e with
@@ -96,20 +105,25 @@ theorem finv_step (hP : P.WF) {gate} {T T' : TState} (e : Ev) (h : FInv P T) (ht
         have hti := h.toIssue_none hne
         cases hk : i.kind with
         | alu u =>
-          simp only [hk] at ht; cases ht
-          exact ⟨⟨h.f.ibok, fun j hj => by rw [hti] at hj; cases hj⟩, fun hc => by cases hc⟩
+          simp only [hk] at ht
+          split at ht <;> cases ht <;>
+            exact ⟨⟨h.f.ibok, fun j hj => by rw [hti] at hj; cases hj⟩, fun hc => by cases hc⟩
         | branch =>
           simp only [hk] at ht; cases ht
           exact ⟨⟨h.f.ibok, fun j hj => by rw [hti] at hj; cases hj⟩, fun hc => by cases hc⟩
         | vload =>
           simp only [hk] at ht
           split at ht
-          · exact finv_advance ht h.f hne
+          · split at ht
+            · cases ht
+            · exact finv_advance ht h.f hne
           · exact finv_advance ht h.f hne
         | vstore =>
           simp only [hk] at ht
           split at ht
-          · exact finv_advance ht h.f hne
+          · split at ht
+            · cases ht
+            · exact finv_advance ht h.f hne
           · exact finv_advance ht h.f hne
         | sload =>
           simp only [hk] at ht
@@ -127,7 +141,10 @@ theorem finv_step (hP : P.WF) {gate} {T T' : TState} (e : Ev) (h : FInv P T) (ht
       | alu u =>
         simp only [hk] at ht
         split at ht
-        · rename_i hph; exact finv_advance ht h.f (by rw [hph]; decide)
+        · rename_i hph
+          split at ht
+          · exact finv_setReady ht h.f (by rw [hph]; decide)
+          · exact finv_advance ht h.f (by rw [hph]; decide)
         · cases ht
       | branch =>
         simp only [hk] at ht
